@@ -176,7 +176,27 @@ static Op gen_table_op(Rng& r) {  // an operation whose first action needs the U
     case 4: return make_idna(r.chance(1, 2) ? I_NORMALIZE : I_MAP, host);
     case 5: return make_idna(r.chance(1, 2) ? I_LABEL_VALID : I_NAME_CP, "m\xc3\xbcnchen");
     case 6: return make_canparse("wss://" + host + ":8080/", std::nullopt);
-    default: return make_parse("//" + host + "/x", OptStr("http://base.example/a/b"));
+    default: {
+      if (r.chance(1, 3)) {  // the C API: parse (+ set_host) or the IDNA entry points
+        Op op;
+        op.kind = OP_CAPI;
+        op.sub = uint8_t(r.chance(1, 2) ? 0 : 1);
+        if (op.sub == 0) op.args = {OptStr("https://" + host + "/c?api"), std::nullopt, r.chance(1, 2) ? OptStr(std::string(pick(r, kIdnHosts))) : std::nullopt};
+        else op.args = {OptStr(host)};
+        return op;
+      }
+      if (r.chance(1, 4)) {  // URLPattern whose hostname needs IDNA, matched against an IDN URL
+        Op op;
+        op.kind = OP_PATTERN;
+        op.args.assign(18, std::nullopt);
+        op.args[3] = host;
+        op.args[5] = "/:id";
+        op.args[9] = "https://" + host + "/42";
+        op.sub = uint8_t((1 << 1) | (1 << 2));
+        return op;
+      }
+      return make_parse("//" + host + "/x", OptStr("http://base.example/a/b"));
+    }
   }
 }
 static Op gen_plain_op(Rng& r) {  // never touches the tables
@@ -192,7 +212,22 @@ static Op gen_plain_op(Rng& r) {  // never touches the tables
       return op;
     }
     case 4: return make_parse("foo://opaque host/p", std::nullopt);
-    default: return make_parse("../x/./y", OptStr("file:///C:/dir/f"));
+    default: {
+      uint32_t w = r.below(4);
+      if (w == 0) {  // C API on an ASCII URL / search params
+        Op op;
+        op.kind = OP_CAPI;
+        op.sub = uint8_t(r.chance(1, 2) ? 0 : 2);
+        if (op.sub == 0) op.args = {OptStr(gen_abs_url(r)), r.chance(1, 3) ? OptStr("http://base.example/a/b?c") : std::nullopt, std::nullopt};
+        else op.args = {OptStr("b=2&a=1&c=%zz+x"), OptStr("a"), OptStr(gen_label(r, r.range(0, 12)))};
+        return op;
+      }
+      if (w == 1) {  // URLPattern: corpus case (construction + test/exec/match)
+        auto& c = corpus();
+        if (!c.patterns.empty()) return c.patterns[r.below(uint32_t(c.patterns.size()))];
+      }
+      return make_parse("../x/./y", OptStr("file:///C:/dir/f"));
+    }
   }
 }
 
@@ -241,6 +276,11 @@ static Plan generate(uint64_t seed, uint64_t run, const std::map<std::string, st
             op = make_parse(in, base);
           }
         }
+        // Compound operations (C API sequences, URLPattern construction) have no single failure channel: under a failed
+        // table allocation they legitimately differ in a *successful* part of their answer (a pattern name character is
+        // classified as "not an identifier", the nested set_host reports false). The allocation-failure batch keeps to
+        // operations whose failure report is unambiguous; every other batch runs them.
+        if (fault == "ta" && (op.kind == OP_CAPI || op.kind == OP_PATTERN)) op = make_idna(I_TO_ASCII, pick(r, kIdnHosts));
         p.ops.emplace_back(t, op);
       }
     }
@@ -537,6 +577,7 @@ static Result execute(const Plan& p, Stats& st) {
         for (size_t i = 0; i < exp_fail[t].size(); i++) {
           if (exp_fail[t][i].text == exp_ok[t][i].text) continue;
           const Op& op = tops[t][i];
+          if (op.kind == OP_CAPI || op.kind == OP_PATTERN) break;  // no single failure channel (see generate())
           char s = exp_fail[t][i].status;
           bool is_failure_report = s == 'F' || (op.kind == OP_IDNA && (op.sub == I_LABEL_VALID || op.sub == I_NAME_CP || op.sub == I_TO_UNICODE));
           // get_origin() of a blob: URL parses the inner URL and has no failure channel of its own:
